@@ -149,6 +149,7 @@ package implements
 //@   assigns nothing
 //@   ensures forall j int :: 0 <= j && j < len(result) ==> (exists k int :: 0 <= k && k < len(iface.Methods) && result[j] == iface.Methods[k] && !implemented(typeModel, iface.Methods[k], requirePointer))
 //@   ensures forall k int :: 0 <= k && k < len(iface.Methods) && !implemented(typeModel, iface.Methods[k], requirePointer) ==> (exists j int :: 0 <= j && j < len(result) && result[j] == iface.Methods[k])
+//@   ensures (len(result) > 0) == (exists k int :: 0 <= k && k < len(iface.Methods) && !implemented(typeModel, iface.Methods[k], requirePointer))
 //@   loop 1 frame
 //@   loop 2 frame
 //@   loop 1 invariant typeMethods != nil && fresh(typeMethods)
@@ -156,6 +157,7 @@ package implements
 //@   loop 1 invariant forall q int :: 0 <= q && q < $i && usable(typeModel.Methods[q], requirePointer) ==> typeMethods[typeModel.Methods[q].Name] == typeModel.Methods[q]
 //@   loop 2 invariant forall j int :: 0 <= j && j < len(missing) ==> (exists k int :: 0 <= k && k < $i && missing[j] == iface.Methods[k] && !implemented(typeModel, iface.Methods[k], requirePointer))
 //@   loop 2 invariant forall k int :: 0 <= k && k < $i && !implemented(typeModel, iface.Methods[k], requirePointer) ==> (exists j int :: 0 <= j && j < len(missing) && missing[j] == iface.Methods[k])
+//@   loop 2 invariant (len(missing) > 0) == (exists k int :: 0 <= k && k < $i && !implemented(typeModel, iface.Methods[k], requirePointer))
 
 // interfaces and annotations are matched by the string key "<package path>.<interface name>"
 //@ macro func ifaceKey(m *InterfaceModel) string = m.Package + "." + m.Name
@@ -186,7 +188,11 @@ package implements
 //@   assigns nothing
 //@   ensures forall k int :: 0 <= k && k < len(result) ==> result[k] != nil && fresh(result[k]) && result[k].Package == pkg.Path()
 //@   ensures forall n string :: hasIfaceModel(result, pkg.Path(), n) <==> (targetInterfaces[n] && declaresIface(pkg, n))
+//@   ensures forall a int, b int :: 0 <= a && a < b && b < len(result) ==> result[a].Name != result[b].Name
+//@   ensures forall k int :: 0 <= k && k < len(result) ==> !strings.Contains(result[k].Name, ".")
 //@   loop 1 frame
+//@   loop 1 invariant forall a int, b int :: 0 <= a && a < b && b < len(result) ==> result[a].Name != result[b].Name
+//@   loop 1 invariant forall k int :: 0 <= k && k < len(result) ==> !strings.Contains(result[k].Name, ".") && (exists j int :: 0 <= j && j < $i && result[k].Name == $seq[j])
 //@   loop 1 invariant forall k int :: 0 <= k && k < len(result) ==> result[k] != nil && fresh(result[k]) && result[k].Package == pkg.Path()
 //@   loop 1 invariant forall n string :: hasIfaceModel(result, pkg.Path(), n) <==> (targetInterfaces[n] && pkg.Scope().Lookup(n) != nil && typeis(pkg.Scope().Lookup(n), *types.TypeName) && typeis(pkg.Scope().Lookup(n).Type().Underlying(), *types.Interface) && (exists j int :: 0 <= j && j < $i && $seq[j] == n))
 // the package path a query refers to ("" = the package being analysed)
@@ -201,7 +207,12 @@ package implements
 //@   assigns nothing
 //@   ensures forall k int :: 0 <= k && k < len(result) ==> result[k] != nil && fresh(result[k])
 //@   ensures forall p string, n string :: hasIfaceModel(result, p, n) <==> (queried(pass, queries, len(queries), p, n) && (exists pkg *types.Package :: scanned(pass, pkg) && pkg.Path() == p && declaresIface(pkg, n)))
+//@   ensures uniqueIfaces(result)
 //@   loop 1 frame
+//@   loop 2 invariant forall a int, b int :: 0 <= a && a < b && b < len(packagesToScan) ==> packagesToScan[a].Path() != packagesToScan[b].Path()
+//@   loop 2 invariant forall k int :: 0 <= k && k < len(packagesToScan) ==> packagesToScan[k] == pass.Pkg || (exists j int :: 0 <= j && j < $i && packagesToScan[k] == $seq[j])
+//@   loop 3 invariant forall a int, b int :: 0 <= a && a < b && b < len(packagesToScan) ==> packagesToScan[a].Path() != packagesToScan[b].Path()
+//@   loop 3 invariant uniqueIfaces(result) && (forall k int :: 0 <= k && k < len(result) ==> !strings.Contains(result[k].Name, ".") && (exists j int :: 0 <= j && j < $i && result[k].Package == packagesToScan[j].Path()))
 //@   loop 2 frame
 //@   loop 3 frame
 //@   loop 1 invariant pkgToInterface != nil && fresh(pkgToInterface) && tmWF(pkgToInterface) && (forall p string :: indom(pkgToInterface, p) ==> fresh(pkgToInterface[p]))
@@ -220,7 +231,9 @@ package implements
 //@   assigns nothing
 //@   ensures forall k int :: 0 <= k && k < len(result) ==> result[k] != nil && fresh(result[k]) && uniqueNames(result[k]) && result[k].Package == pkg.Path()
 //@   ensures forall n string :: hasTypeModel(result, n) <==> (targetTypes[n] && declaresNamed(pkg, n))
+//@   ensures uniqueTypes(result)
 //@   loop 1 frame
+//@   loop 1 invariant uniqueTypes(result) && (forall k int :: 0 <= k && k < len(result) ==> (exists j int :: 0 <= j && j < $i && result[k].Name == $seq[j]))
 //@   loop 1 invariant forall k int :: 0 <= k && k < len(result) ==> result[k] != nil && fresh(result[k]) && uniqueNames(result[k]) && result[k].Package == pkg.Path()
 //@   loop 1 invariant forall n string :: hasTypeModel(result, n) <==> (targetTypes[n] && pkg.Scope().Lookup(n) != nil && typeis(pkg.Scope().Lookup(n), *types.TypeName) && typeis(pkg.Scope().Lookup(n).Type(), *types.Named) && (exists j int :: 0 <= j && j < $i && $seq[j] == n))
 //@ func LoadTypes
@@ -229,24 +242,39 @@ package implements
 //@   assigns nothing
 //@   ensures forall k int :: 0 <= k && k < len(result) ==> result[k] != nil && fresh(result[k]) && uniqueNames(result[k])
 //@   ensures forall n string :: hasTypeModel(result, n) <==> ((exists q int :: 0 <= q && q < len(queries) && queries[q].TypeName == n) && declaresNamed(pass.Pkg, n))
+//@   ensures uniqueTypes(result)
 //@   loop 1 frame
 //@   loop 1 invariant targetTypes != nil && fresh(targetTypes)
 //@   loop 1 invariant forall n string :: targetTypes[n] <==> (exists q int :: 0 <= q && q < $i && queries[q].TypeName == n)
 
+// IMPL03 composition: an annotation with a resolved qualifier, whose interface and type models are loaded, is reported
+// exactly if some interface method is not implemented (in the model of 12.7); the report lists exactly those methods.
+// Keys of the loaded interfaces and names of the loaded types are unique (scopes have one object per name).
+//@ macro func uniqueIfaces(l []*InterfaceModel) bool = forall a int, b int :: 0 <= a && a < b && b < len(l) ==> ifaceKey(l[a]) != ifaceKey(l[b])
+//@ macro func uniqueTypes(l []*TypeModel) bool = forall a int, b int :: 0 <= a && a < b && b < len(l) ==> l[a].Name != l[b].Name
+//@ macro func mm03(r MissingMethodsReport, a annotations.ImplementsAnnotation) bool = r.Pos == a.OnTypePos && r.TypeName == a.OnType && r.PackageName == a.PackageName && r.InterfaceName == a.InterfaceName
+//@ macro func lacks(tm *TypeModel, im *InterfaceModel, ptr bool) bool = exists m int :: 0 <= m && m < len(im.Methods) && !implemented(tm, im.Methods[m], ptr)
+//@ macro func due03(a annotations.ImplementsAnnotation, interfaces []*InterfaceModel, types []*TypeModel) bool = !a.PackageNotFound && (exists i int, t int :: 0 <= i && i < len(interfaces) && ifaceKey(interfaces[i]) == annKey(a) && 0 <= t && t < len(types) && types[t].Name == a.OnType && lacks(types[t], interfaces[i], a.IsPointer))
 //@ func FindMissingMethods
 //@   props C05 C17 C10
 //@   requires forall k int :: 0 <= k && k < len(interfaces) ==> interfaces[k] != nil
 //@   requires forall k int :: 0 <= k && k < len(types) ==> types[k] != nil && uniqueNames(types[k])
+//@   requires uniqueIfaces(interfaces) && uniqueTypes(types)
 //@   assigns nothing
-//@   ensures forall j int :: 0 <= j && j < len(result) ==> (exists k int :: 0 <= k && k < len(annotations) && !annotations[k].PackageNotFound && result[j].Pos == annotations[k].OnTypePos && result[j].TypeName == annotations[k].OnType)
+//@   ensures forall j int :: 0 <= j && j < len(result) ==> (exists k int :: 0 <= k && k < len(annotations) && due03(annotations[k], interfaces, types) && mm03(result[j], annotations[k]))
+//@   ensures forall k int :: 0 <= k && k < len(annotations) && due03(annotations[k], interfaces, types) ==> (exists j int :: 0 <= j && j < len(result) && mm03(result[j], annotations[k]))
 //@   loop 1 frame
 //@   loop 2 frame
 //@   loop 3 frame
-//@   loop 1 invariant interfaceIndex != nil && fresh(interfaceIndex) && (forall key string :: indom(interfaceIndex, key) ==> interfaceIndex[key] != nil)
-//@   loop 2 invariant typeIndex != nil && fresh(typeIndex) && (forall key string :: indom(typeIndex, key) ==> typeIndex[key] != nil && uniqueNames(typeIndex[key]))
-//@   loop 2 invariant interfaceIndex != nil && (forall key string :: indom(interfaceIndex, key) ==> interfaceIndex[key] != nil)
-//@   loop 3 invariant interfaceIndex != nil && (forall key string :: indom(interfaceIndex, key) ==> interfaceIndex[key] != nil) && typeIndex != nil && (forall key string :: indom(typeIndex, key) ==> typeIndex[key] != nil && uniqueNames(typeIndex[key]))
-//@   loop 3 invariant forall j int :: 0 <= j && j < len(result) ==> (exists k int :: 0 <= k && k < $i && !annotations[k].PackageNotFound && result[j].Pos == annotations[k].OnTypePos && result[j].TypeName == annotations[k].OnType)
+//@   loop 1 invariant interfaceIndex != nil && fresh(interfaceIndex) && (forall key string :: indom(interfaceIndex, key) <==> (exists i int :: 0 <= i && i < $i && ifaceKey(interfaces[i]) == key))
+//@   loop 1 invariant forall i int :: 0 <= i && i < $i ==> interfaceIndex[ifaceKey(interfaces[i])] == interfaces[i]
+//@   loop 2 invariant typeIndex != nil && fresh(typeIndex) && (forall key string :: indom(typeIndex, key) <==> (exists t int :: 0 <= t && t < $i && types[t].Name == key))
+//@   loop 2 invariant forall t int :: 0 <= t && t < $i ==> typeIndex[types[t].Name] == types[t]
+//@   loop 2 invariant interfaceIndex != nil && (forall key string :: indom(interfaceIndex, key) <==> (exists i int :: 0 <= i && i < len(interfaces) && ifaceKey(interfaces[i]) == key)) && (forall i int :: 0 <= i && i < len(interfaces) ==> interfaceIndex[ifaceKey(interfaces[i])] == interfaces[i])
+//@   loop 3 invariant interfaceIndex != nil && (forall key string :: indom(interfaceIndex, key) <==> (exists i int :: 0 <= i && i < len(interfaces) && ifaceKey(interfaces[i]) == key)) && (forall i int :: 0 <= i && i < len(interfaces) ==> interfaceIndex[ifaceKey(interfaces[i])] == interfaces[i])
+//@   loop 3 invariant typeIndex != nil && (forall key string :: indom(typeIndex, key) <==> (exists t int :: 0 <= t && t < len(types) && types[t].Name == key)) && (forall t int :: 0 <= t && t < len(types) ==> typeIndex[types[t].Name] == types[t])
+//@   loop 3 invariant forall j int :: 0 <= j && j < len(result) ==> (exists k int :: 0 <= k && k < $i && due03(annotations[k], interfaces, types) && mm03(result[j], annotations[k]))
+//@   loop 3 invariant forall k int :: 0 <= k && k < $i && due03(annotations[k], interfaces, types) ==> (exists j int :: 0 <= j && j < len(result) && mm03(result[j], annotations[k]))
 
 // every problem goes through the common Reporter (suppression by code and position, C17); earlier reports are kept
 //@ func ReportProblems
